@@ -8,7 +8,9 @@ from . import grammar as G
 UNKNOWN_CHARS = ['€', 'ü', 'ß', 'Ω', '日', '¿', '§', '°', 'þ']
 TRUNCATED = ['4', '16.', '*clef', '*k[f#', '*M3/', '*met(', '*xywh-1:1,2,3', '*M', '*MM', 'h', '4h', 'q', '4q', '*staffx',
              '*k[', '*xywh-', '8..', '*>', '*Tr', '*clefX2']
-WRONG_ORDER_STRICT = ['c4', '#c4', 'r4', 'cc#8', '4c4', '.x', '-4c', '#4c', 'n4c']
+WRONG_ORDER_STRICT = ['c4', '#c4', 'r4', 'cc#8', '4c4', '.x', '-4c', '#4c', 'n4c',
+                      # stray blanks in front of an otherwise valid token
+                      ' 4e', '  2g', ' =2', ' *M4/4', ' .', ' *clefG2', ' 4c 4e']
 TRAIL = ['4c!x', '4cI', '4c%', '*clefG2zz', '=1||zz', '4c 4e!', '4r|', '*M4/4,', '4ch', '=foo', '4c,', '*MM120x', '4c|',
          '*k[f#]zz', '4c-#', '4c#-', '4cc#n', '*clefG2 ', '=1!', '2r!', '.!', '*!', '4c=', '*staff1x', '*met(c)x']
 
